@@ -3,7 +3,8 @@ import re
 import t2t, corr, semrun, gen, impl, mlmath
 
 OBLIGATIONS = ['Yalafi.C10_rot_length', 'Yalafi.C10_rot_perm', 'Yalafi.C10_rot_head', 'Yalafi.C10_detectParts_tok', 'Yalafi.C10_inline_shape', 'Yalafi.C10_inline_shape_tokens',
-               'Yalafi.C10_inline_math_e2e', 'Yalafi.C10_current_facts', 'Yalafi.C10_example_current']
+               'Yalafi.C10_inline_math_e2e', 'Yalafi.C10_current_facts', 'Yalafi.C10_example_current',
+               'Yalafi.C10_inline_rich_e2e', 'Yalafi.C10_rich_no_source', 'Yalafi.C10_rich_span', 'Yalafi.C10_rich_rotation', 'Yalafi.C10_inline_rich_e2e_current', 'Yalafi.C10_rich_example_current', 'Yalafi.C10_rich_example_output', 'Yalafi.C10_rich_example_eval', 'Yalafi.C10_rich_example2_current', 'Yalafi.C10_rich_only_space_eval']
 
 ONLY = {'c_group', 'c_unknown', 'c_vanish', 'c_ref', 'c_inline_math', 'c_footnote', 'c_itemize', 'c_env_unknown', 'c_cite', 'c_foreign'}
 
